@@ -25,7 +25,7 @@ def main():
                           replay_of(12, n, ty, cfg, p), key='solve:%s:%d:%d:%s:%s' % (strat, ncol, n, ty, cfg.name))
     n_model = linlib.model_compare(12, rows, rep)
     rep.cov.update({'records_compared_exactly_with_the_coq_model': n_model, 'evaluations': n_eval, 'distinct_nontrivial': len(jobs),
-                    'rule': 'six solve strategies x (vector right-hand side, 1, 2, 3, 5 columns) + lazy solve in an expression + forward/backward substitution helpers; sizes %s; float and double; families as C10; |A*x-b| (infinity norm, long double) <= 16*n*eps*cond(A)*|b|' % (linlib.QUICK_SIZES if tr == 'quick' else linlib.THOROUGH_SIZES),
+                    'rule': 'six solve strategies x (vector right-hand side, 2, 3 columns; thorough also 1 and 5) x (tensor operands, expression left operand, expression right operand, both) + lazy solve in an expression + forward/backward substitution helpers; sizes %s; float and double; families as C10; |A*x-b| (infinity norm, long double) <= 16*n*eps*cond(A)*|b|' % (linlib.QUICK_SIZES if tr == 'quick' else linlib.THOROUGH_SIZES),
                     'configurations': sorted(set(c.name for _, _, c in jobs)), 'size_type_configuration_triples': ['%d/%s/%s' % (n, ty, c.name) for n, ty, c in jobs],
                     'distribution': dist, 'counted_not_judged_(growth)': skipped, 'worst_residual_over_n*eps*cond*|b|': {k: round(v, 3) for k, v in sorted(worst.items())}, 'traces_validated_against_impl': n_model})
     rep.assumptions = ['cond(A) = |A| * |inverse<SimpleInvPiv>(A)| (the library inverse, itself checked by C10)', 'the constant 16 is measured against, not proved']
